@@ -14,8 +14,33 @@ import KyupyVerif.Proofs.CycleStrip
 Generated from the working tree: `Gen.sem2n` (what `logic_sim._prop_cpu` computes for an op code),
 `Gen.sem2p` (`LogicSim.c_prop()` at m=2), `Gen.sem2c` (the `inject_cb` chain), `Gen.prims`
 (`sim.names`), `Gen.kindPrefixes` (`sim.kind_prefixes`, in dictionary order).
-Hand model tied by exact correspondence: `genOps`, `levelise`, `memMap` (Model/SimOps.lean).
-Specification: `formula`, `specPrimName`, `evalLine` (Model/Prim.lean, Model/Net.lean). -/
+Hand model tied by exact correspondence: `genOps`, `levelise`, `memMap` (Model/SimOps.lean); the state handling around
+`c_prop` — `s_to_c`, `c_to_s`, `s_ppo_to_ppi`, `cycle(k)` and the index tables `pi/po/ppio/pippi/poppo_s_locs` — is
+Model/Cycle.lean (`Cycle.tabsOf`, `sToC`, `cToS`, `ppoToPpi`, `cycle1`, `cycleK`; array form `cycleKA` run by the driver).
+Specification: `formula`, `specPrimName`, `evalLine` (Model/Prim.lean, Model/Net.lean).
+
+What is THEOREM for the sequential statement ("`cycle(k)` iterates the next-state function k times, primary-input rows of
+`s[0]` untouched"), for every well-formed netlist, every topological order, every value domain / op semantics (so also with
+a pure injection callback folded into `sem`, C16), every `merge` (m = 2, 4: copy; m = 8: transition builder), every k:
+* (6) `cycle_step` — one cycle stores at `s[1][p]` the value ANY solution of the gate equations gives the captured line
+  (constant slot for a state element with open data pin, nothing for a port without data pin), keeps port rows of `s[0]`,
+  sets state rows of `s[0]` to `merge old s[1][p]`; `cycle_zero_slot`;
+* (7) `cycle_iter` — `s[0]` after `cycle(k)` = `N^k s[0]`, `N = Cycle.nextState` (defined by THE solution: (7') `nextState_unique`),
+  port rows constant, `s[1]` = capture of the labelling of `N^(k-1) s[0]`; memory left by earlier cycles is irrelevant;
+* (7'') `cycle_array_form` — the driver's array form = the model;
+* (8) `cycle_on_memory`, (8') `cycle_end_to_end` — the loop ON MEMORY (`s_to_c` writes rows `c_locs[ppi_offset+p]`, real op rows on
+  memory, `c_to_s` reads rows `c_locs[ppo_offset+p]`; any allocator, `c_reuse`, `strip_forks`) = the signal-level loop, under the
+  accepted map certificate (C08) and the decidable table conditions `stateOutsB`, `zeroCapB`;
+* (9) `cycle_lanes` — lane k of the bit-parallel loop = the one-lane loop on lane k, any batch size, any k;
+* (10) `cycle_strip_irrelevant` — `s` after `cycle(k)` does not depend on `strip_forks` (hypotheses `forksOKB`, `capDriversB`).
+CORRESPONDENCE (harness/c01.py `cycle_tie`, every generated sequential case, m = 2, 4, 8, {strip_forks} x {c_reuse}, both
+`c_prop` code paths, k = 0..5, random `s[0]`, `s[1]` in all planes, all lanes): `pippi/poppo/ppio_s_locs` and
+`pippi/poppo_c_locs` of the real `LogicSim` = the model's tables; `s[0]`, `s[1]` after the real `cycle(k)` = `cycleKA k`;
+certificates `stateOutsB`, `zeroCapB` (real `c_locs`), `capDriversB`, `forksOKB`, `wfB`, `orderOKB` (real order) per case.
+Still ORACLE / per-instance only: that the real map passes the certificate (C08, per instance); circuits with a state element
+without output pin list are outside (8) (`s_to_c` then writes row -1 = the last row; covered by correspondence only);
+the bit-plane packing of `s` is outside the model (one value per lane and position = the first mdim planes; the planes
+>= mdim that `s_ppo_to_ppi` copies along and the plane-1 copy `c_to_s` makes for m = 2 are neither modelled nor compared). -/
 namespace KV.C01
 open KV KV.Sig
 
@@ -351,6 +376,18 @@ example : Cycle.tabsOf demoSeq false =
 example : (demoRun 1 true false).s0 = [true, false, true] ∧ (demoRun 1 true false).s1 = [false, false, true] ∧
     (demoRun 2 true false).s0 = [true, false, false] ∧ (demoRun 2 true false).s1 = [false, true, false] ∧
     (demoRun 5 true false).s0 = [true, false, true] ∧ (demoRun 3 false true).s0 = [false, false, true] := by decide +kernel
+
+/-- non-vacuity of (6b): a flip-flop with OPEN data pin observed at a port — it captures the constant slot (the D9 repair) -/
+def demoOpen : Net :=
+  { nodes := #[⟨"DFF", [], [some 0]⟩, ⟨"__fork__", [some 0], [some 1]⟩, ⟨"output", [some 1], []⟩],
+    lines := #[⟨0, 0, 1, 0⟩, ⟨1, 0, 2, 0⟩], io := [2] }
+def demoOpenRun (k : Nat) : Cycle.S Bool :=
+  (Cycle.cycleK (fun op => semL2n op.code) (Cycle.sigOps Gen.kindPrefixes demoOpen [0, 1, 2] false)
+    (Cycle.tabsOf demoOpen false) Cycle.mergeCopy false k ⟨fun _ => false, ⟨[false, true], [false, false]⟩⟩).s
+example : demoOpen.wfB = true ∧ orderOKB demoOpen [0, 1, 2] = true ∧ demoOpen.sNodes = [2, 0] ∧
+    Cycle.tabsOf demoOpen false = { ppi := 5, ppo := 7, pippi := [(1, 6)], poppo := [(0, 1), (1, 2)], ppio := [1] } ∧
+    (demoOpenRun 1).s1 = [true, false] ∧ (demoOpenRun 1).s0 = [false, false] ∧ (demoOpenRun 2).s1 = [false, false] := by
+  decide +kernel
 
 /-- non-vacuity of (8), (8'): the REAL tables of `LogicSim(c_reuse=True)` for `demoSeq` and the REAL `topological_order()` -/
 def demoSeqMap : MapIn :=
